@@ -5,7 +5,7 @@ import vf
 PROP = "C19"
 THEOREMS = ["new_canonical", "new_idempotent", "canonical_classes", "canonical_fixed_points", "ops_closed",
             "sin_odd_any_rounding", "cos_even", "sin_odd", "new_matches_adder", "codec_canonicalize_agrees", "sin_table_facts",
-            "q32_total", "q32_saturates", "q32_mul_nearest", "q32_div_nearest",
+            "q32_total", "q32_saturates", "q32_mul_nearest", "q32_div_nearest", "q32_to_f32_canonical",
             "prng_next_int_range", "prng_never_zero_state", "from_axis_angle_total_refuted",
             "sin_cos_range", "sin_cos_is_signed_interp", "sin_interp_segment_range"]
 PRE = ("From Coq Require Import List NArith ZArith.\n"
@@ -576,16 +576,17 @@ def run(tier, seed, replay=None):
     r.cov["phase_wall_s"] = tm
 
     # ---- P6: if a proof / the table / the correspondence broke and nothing concrete failed, search harder on the oracles
-    if r.broken and not r.violations:
+    known = {k.get("signature") for k in vf.known_findings(PROP)}
+    if r.broken and not [v for v in r.violations if v[0] not in known]:
         try:
             extra = gen_ops(r.rng, 20000)
             for prof in ("debug", "release"):
                 out = [l for l in run_lines(bins[prof], "c19search-" + prof, extra) if l.startswith("r=")]
                 for c, l in zip(extra, out):
-                    if " oracle=ok" not in l:
+                    if " oracle=ok" not in l and "oracle:" + l.split("oracle=FAIL:")[-1].split(",")[0] not in known:
                         r.violation("oracle:" + l.split("oracle=FAIL:")[-1].split(",")[0], "oracle failed during search", {"case": c, "impl": l, "profile": prof})
                         break
-            if tier == "quick" and not r.violations:
+            if tier == "quick" and not [v for v in r.violations if v[0] not in known]:
                 digest_phase(r, bins, f"sweep kind=full threads={vf.NCPU}", "c19search", "sweep", timeout=6000)
             r.phase("P6_search", cases=len(extra))
         except (vf.Broken, subprocess.TimeoutExpired) as e:
